@@ -51,6 +51,7 @@ type Spec struct {
 	RefSibling     string // a keyword written NEXT TO the $ref on the referring node: "type" (the target's own type) or "description"
 	IntBounds      bool   // the numeric bounds are integers (fact on their atoms)
 	FracBounds     bool   // the numeric bounds are NOT integers (fact on their atoms)
+	NotKw          bool   // the node also carries a "not" keyword ({"not": {"enum": [<text>]}}), which the generator does not translate: types and checks are those of the node without it
 	RefVia         bool   // with Ref: the referrers point at an alias definition whose whole content is a $ref to this definition
 	DefSameAs      string // with Ref: the definition has the same NAME as the (earlier built) definition with this label (possibly in another file)
 	DefLabel       string // label under which this definition's name can be reused
@@ -162,6 +163,9 @@ func (s *Spec) String() string {
 	}
 	if s.FracBounds {
 		b.WriteString(" fractional-bounds")
+	}
+	if s.NotKw {
+		b.WriteString(" +not")
 	}
 	if s.EMin != "" {
 		b.WriteString(" emin=" + s.EMin)
@@ -494,6 +498,9 @@ func (b *builder) build(s *Spec, label string) gen.V {
 	}
 	if s.AddPropsSpec != nil {
 		f["AdditionalProperties"] = b.build(s.AddPropsSpec, label+"Value")
+	}
+	if s.NotKw {
+		f["Not"] = g.Node(map[string]gen.V{"Enum": g.Anys(gen.Any(gen.TString(), absint.HoleStr(b.atom(s, "RawStr", "not.enum[0]", false))))})
 	}
 	switch s.AddProps {
 	case "":
